@@ -459,7 +459,14 @@ class Array(metaclass=MetaArray):
             shape = cls._shape
         if not cls._is_static_type:
             items = np.prod(shape)
-            self._offsets = Int64._array_from_buffer(buffer, coffset, items)
+            offsets = Int64._array_from_buffer(buffer, coffset, items)
+            if len(shape) > 1:
+                # the table is stored in memory order: make it indexable
+                order = mk_order(cls._order, shape)
+                offsets = offsets.reshape(
+                    [shape[io] for io in order]
+                ).transpose(np.argsort(order))
+            self._offsets = offsets
         return self
 
     @classmethod
@@ -483,7 +490,10 @@ class Array(metaclass=MetaArray):
             )
             coffset += 8 * len(header)
         if not cls._is_static_type:
-            Int64._array_to_buffer(buffer, coffset, info.offsets)
+            # the table is addressed with the strides, i.e. in memory order
+            Int64._array_to_buffer(
+                buffer, coffset, info.offsets.transpose(info.order)
+            )
             coffset += 8 * len(info.offsets)
         if hasattr(cls._itemtype, "_dtype") and hasattr(
             value, "dtype"
